@@ -9,6 +9,7 @@ compared with the bounds the real protocols pass to _randoms / prfs / secrets.ra
 simulator.  Search: for a row whose obligation fails the protocol is run on two secrets with equal
 outputs and the opened values are compared (threshold distinguisher).
 """
+import collections
 import os, sys, json, subprocess, time, math
 from concurrent.futures import ThreadPoolExecutor
 
@@ -1324,6 +1325,30 @@ def run(ctx):
                 continue
             if [int(x) for x in mv] != [int(x) for x in obs]:
                 nbad += 1
+                # does the OBSERVED layout still give independent uniform masks?  (every bit moves exactly one element by a
+                # power of two, every element gets each weight 2^0..2^(f-1) exactly once, responses add up linearly)
+                sg = cs.get('sign', 1)
+                unit = [[sg * int(x) for x in r_] for r_ in c['resp']]
+                per = collections.defaultdict(list)
+                bij = True
+                for col in unit:
+                    nz = [(j, w) for j, w in enumerate(col) if w]
+                    if len(nz) != 1:
+                        bij = False
+                        break
+                    per[nz[0][0]].append(nz[0][1])
+                bij = bij and all(sorted(per.get(j, [])) == [1 << i for i in range(cs['f'])] for j in range(cs['n']))
+                for e_, o_ in zip(cs['extra'], c['extra']):
+                    want_ = [sum(unit[b][j] for b in range(nb) if e_[b]) for j in range(cs['n'])]
+                    bij = bij and want_ == [sg * int(x) for x in o_]
+                if bij:
+                    if nbad <= 3:
+                        ctx.broken.append({'kind': 'maskbits-layout-differs', 'case': cs, 'bit_vector': v, 'observed': obs,
+                                           'model_low_masks': [int(x) for x in mv],
+                                           'note': 'observed bit layout differs from MaskBits.low_masks but is still one bit -> one '
+                                                   'element with all weights 2^0..2^(f-1) once per element (a bijection): the model '
+                                                   'no longer matches the code, no failing input for C18 found'})
+                    continue
                 if nbad <= 3:
                     fn = 'np_to_bits' if cs['kind'] == 'np_to_bits' else 'np_trunc' if cs['kind'].startswith('np') else 'trunc'
                     ctx.violation('mask-bits-layout site=%s' % fn,
